@@ -451,12 +451,163 @@ def judge(ctx, case, ra, rb, hashseeds, facts=None, funcmap=None):
                 if fid is not None and fid not in reach:
                     miss.append("%s:%s %s" % (fn, line, name))
         ctx.traces_validated += 1
+        for r in (ra, rb):
+            dynamic_graph_checks(ctx, case, r, facts, funcmap, rcase, sig)
         if miss:
             ctx.violation("correspondence",
                           "functions executed in a %s run are outside the static reachable set of configuration %s "
                           "(translator blind spot): %s" % (sig, case["config"], sorted(set(miss))[:8]),
                           case=rcase, failing_input=False,
                           broken="translator over-approximation (harness/translate_effects.py call graph)")
+
+
+class GraphIndex:
+    """the generated graph of one configuration (guards applied), indexed for the dynamic checks"""
+
+    def __init__(self, facts, cfg):
+        v = facts["configs"][cfg]
+        off = set(v["off"])
+        self.kind = [k for k, _ in facts["nodes"]]
+        self.name = [n for _, n in facts["nodes"]]
+        self.roots = set(v["roots"])
+        self.by_src, self.by_cond = {}, {}
+        for a, b, c, ls in facts["edges"]:
+            if any(l in off for l in ls):
+                continue
+            self.by_src.setdefault(a, []).append((a, b, c))
+            self.by_cond.setdefault(c, []).append((a, b, c))
+
+    def is_fn(self, x):
+        return self.kind[x - 1] == "F"
+
+
+def check_trace_justified(gi, order):
+    """order: [(fid, dynamic caller fid or None)] in order of FIRST execution.  Mirrors the Coq predicate [Justified]:
+    a function may run only if it is an entry point or the target of a live edge whose source and condition were
+    touched earlier (pseudo nodes - classes, method names, module variables, @rsnone twins - are touched as soon
+    as an edge into them can fire).  Returns (n_entry, n_justified, n_by_caller, unjustified list)."""
+    touched, ready = {1}, set()
+    pend = []
+
+    def touch(x):
+        stack = [x]
+        while stack:
+            y = stack.pop()
+            if y in touched:
+                continue
+            touched.add(y)
+            for (a, b, c) in gi.by_src.get(y, []) + gi.by_cond.get(y, []):
+                if a in touched and c in touched:
+                    if gi.is_fn(b):
+                        ready.add(b)
+                    elif b not in touched:
+                        stack.append(b)
+
+    touched.discard(1)
+    touch(1)
+    for r in gi.roots:
+        if not gi.is_fn(r):
+            touch(r)
+    n_entry = n_just = n_by_caller = 0
+    bad = []
+    for fid, caller in order:
+        if fid in touched:
+            continue
+        if fid in ready:
+            n_just += 1
+            if caller is not None and one_step(gi, caller, fid, touched):
+                n_by_caller += 1
+        elif fid in gi.roots:
+            n_entry += 1
+        else:
+            bad.append((fid, caller))
+        touch(fid)
+    return n_entry, n_just, n_by_caller, bad
+
+
+def one_step(gi, u, v, touched):
+    """v is the target of a path from u that passes only through pseudo nodes (conditions: touched nodes)"""
+    seen, stack = {u}, [u]
+    while stack:
+        y = stack.pop()
+        for (a, b, c) in gi.by_src.get(y, []):
+            if c not in touched and c != 1:
+                continue
+            if b == v:
+                return True
+            if not gi.is_fn(b) and b not in seen:
+                seen.add(b)
+                stack.append(b)
+    return False
+
+
+def dynamic_graph_checks(ctx, case, r, facts, funcmap, rcase, sig):
+    """translator obligation, tested on a profiled run: (1) the trace of first executions is justified by the generated
+    graph, (2) every dynamic caller->callee edge has a static counterpart (reported; callables created elsewhere do
+    not), (3) a function inside which a global generator was consumed carries that effect in the facts"""
+    cfg = case.get("config")
+    if r.get("order") is None or cfg not in facts["configs"]:
+        return
+    gi = facts.setdefault("_gi", {}).get(cfg)
+    if gi is None:
+        gi = facts["_gi"][cfg] = GraphIndex(facts, cfg)
+    order = []
+    for fn, line, name, caller in r["order"]:
+        fid = funcmap(fn, line)
+        if fid is None:
+            continue
+        cid = funcmap(caller[0], caller[1]) if caller else None
+        if not order or order[-1][0] != fid:
+            order.append((fid, cid if cid != fid else None))
+    n_entry, n_just, n_by_caller, bad = check_trace_justified(gi, order)
+    ctx.h("dynamic_trace", "functions first executed", n_entry + n_just + len(bad))
+    ctx.h("dynamic_trace", "entry points called by the harness", n_entry)
+    ctx.h("dynamic_trace", "justified by an edge from an earlier touched node", n_just)
+    ctx.h("dynamic_trace", "  ... of these: edge from the dynamic caller itself", n_by_caller)
+    ctx.h("dynamic_trace", "NOT justified", len(bad))
+    if bad:
+        ctx.violation("correspondence",
+                      "translator: functions ran in a %s run although no live edge of the generated graph (configuration "
+                      "%s) leads to them from anything touched earlier: %s" % (
+                          sig, cfg, ["%s (called from %s)" % (gi.name[f - 1], gi.name[c - 1] if c else "harness")
+                                     for f, c in bad[:6]]),
+                      case=rcase, failing_input=False,
+                      broken="translator obligation (justified trace), harness/translate_effects.py call graph")
+    # dynamic edges
+    touched_all = set(range(1, len(gi.kind) + 1))
+    n_static = n_dyn_only = 0
+    examples = []
+    for fa, la, fb, lb in r.get("dyn_edges") or []:
+        u, v = funcmap(fa, la), funcmap(fb, lb)
+        if u is None or v is None or u == v:
+            continue
+        if one_step(gi, u, v, touched_all):
+            n_static += 1
+        else:
+            n_dyn_only += 1
+            if len(examples) < 4:
+                examples.append("%s -> %s" % (gi.name[u - 1].replace("syne_tune.", ""), gi.name[v - 1].replace("syne_tune.", "")))
+    ctx.h("dynamic_edges", "caller->callee pairs with a static counterpart", n_static)
+    ctx.h("dynamic_edges", "pairs without one (callable created elsewhere / passed as value)", n_dyn_only)
+    if examples:
+        facts.setdefault("_dyn_examples", set()).update(examples)
+    # attribution of global-generator consumption
+    eff_nodes = {}
+    for nd, kind, lits, name, where in facts["effs"]:
+        if kind in ("GlobalNumpyRNG", "PyRandom"):
+            eff_nodes.setdefault(name.split("/")[0].replace("@rsnone", ""), set()).add(kind)
+    for fn, line, name in r.get("rng_consumers") or []:
+        fid = funcmap(fn, line) if fn != "<harness>" else None
+        qual = gi.name[fid - 1] if fid else None
+        ctx.h("rng_attribution", "consumption observed inside a function", 1)
+        if qual is None or qual not in eff_nodes:
+            ctx.violation("correspondence",
+                          "translator: a global generator was consumed while %s was executing, but the generated facts "
+                          "carry no GlobalNumpyRNG / PyRandom effect for that function" % (qual or "%s:%s %s" % (fn, line, name)),
+                          case=rcase, failing_input=False,
+                          broken="translator effect detectors (global generator), harness/translate_effects.py")
+        else:
+            ctx.h("rng_attribution", "  ... attributed to a function carrying the effect", 1)
 
 
 def make_funcmap(facts):
@@ -851,4 +1002,6 @@ def run(ctx, replay=None):
                     broken="correspondence translate_effects.reach vs EffGraph.reach_set")
         except Exception as e:
             ctx.notes.append("allow_used evaluation skipped: %s" % str(e)[:200])
+    if facts.get("_dyn_examples"):
+        ctx.notes.append("dynamic edges without static counterpart (examples): " + "; ".join(sorted(facts["_dyn_examples"])[:8]))
     ctx.notes.append("translator stats: %s; blind spots: %s" % (json.dumps(facts["stats"]), " | ".join(T.BLIND_SPOTS)))
